@@ -73,7 +73,10 @@ def xproc_strategy(draw):
         st.tuples(st.integers(0, n - 1),
                   st.sampled_from([1, 1, 2, 3, 5, 8, 13])),
         min_size=0, max_size=40))
-    return {"kind": "xproc", "participants": parts,
+    # terminal numbers: inside the range of the lock file, its first, its last
+    addresses = draw(st.sampled_from([[1003, 1004], [1003, 1004], [1000, 1015],
+                                      [1015, 1000], [1015, 1014]]))
+    return {"kind": "xproc", "participants": parts, "addresses": addresses,
             "chunks": [list(c) for c in chunks]}
 
 
@@ -82,12 +85,14 @@ def enumerate_cases(tier):
     every placement of one preemption - this covers the window between the
     creation and the initialisation of the lock file"""
     one = {"tasks": [[{"term": 0, "msgs": 2}]]}
-    for first in (0, 1):
-        for s in range(0, 14):
-            for t in range(1, 14):
-                yield {"kind": "xproc", "participants": [one, one],
-                       "chunks": [[first, s], [1 - first, t], [first, 100],
-                                  [1 - first, 100]]}
+    for addresses in ([1003, 1004], [1015, 1000], [1000, 1015]):
+        for first in (0, 1):
+            for s in range(0, 14):
+                for t in range(1, 14):
+                    yield {"kind": "xproc", "participants": [one, one],
+                           "addresses": addresses,
+                           "chunks": [[first, s], [1 - first, t],
+                                      [first, 100], [1 - first, 100]]}
     # a process with exchanges on two terminals in flight at once (two tasks)
     # and a second process using one of these terminals
     two = {"tasks": [[{"term": 0, "msgs": 1}], [{"term": 1, "msgs": 3}]]}
@@ -176,7 +181,7 @@ def run_xproc(case):
 
             async def user(ti, exchanges):
                 for ex in exchanges:
-                    no = 1003 + ex["term"]
+                    no = case.get("addresses", [1003, 1004])[ex["term"]]
                     if no not in locks:
                         # one lock object per terminal and process, like the
                         # Terminal object holds it
@@ -259,7 +264,9 @@ def run_xproc(case):
     ops = [f"{p}:{op}" for p, op in s.trace]
     multi_task = any(len(p["tasks"]) > 1 for p in case["participants"])
     classes = ["cross-process", f"processes={n}"] + (
-        ["two-tasks-in-a-process"] if multi_task else [])
+        ["two-tasks-in-a-process"] if multi_task else []) + (
+        ["first-or-last-terminal-of-the-range"]
+        if set(case.get("addresses", [])) & {1000, 1015} else [])
 
     def fail(what, facts=()):
         return dict(ok=False, nontrivial=True, classes=classes,
